@@ -1,15 +1,20 @@
 import JunoModel.Common.Proto
 import JunoModel.C16.Model
 import JunoModel.C16.ModelMig
+import JunoModel.C16.ModelMigStep
 /-! Line-protocol driver for the C16 model (`lake build c16drv`).
 
 State-changing requests (answer = `Out` of the model step):
-  cfg <retained> <l2PerPrune> <minAge 0|1> <legacy 0|1> <fixed 0|1> <migSkipsMissing 0|1> <migZeroNoop 0|1> <l2Clamps 0|1> <readerGuard 0|1>
+  cfg <retained> <l2PerPrune> <minAge 0|1> <legacy 0|1> <fixed 0|1> <migSkipsMissing 0|1> <migZeroNoop 0|1> <l2Clamps 0|1> <readerGuard 0|1> <sampleChecked 0|1>
                      reset to the empty node with this configuration (block timestamps all 0)
-  ts <t0> <t1> ...   the header timestamps of blocks 0, 1, ... (configuration; the node state is untouched)
+  ts <t0> <t1> ...   the chain the network offers from now on has these header timestamps (blocks 0, 1, ...; beyond
+                     the list: the last one): `Op.fork` to a fork of the configuration that carries them. The blocks
+                     the node has stored keep the timestamps they were stored with (the harness sends the same
+                     values for them); sent before the first store and whenever the chain grows or is reorganised
   clock <t>          the wall clock minus the minimum age is now t (it only advances: `advance (t - cutoff)`)
   bulk <k>           the node after k stores on the empty database, in closed form
   agg <w>            is the aggregated bloom filter of window w persisted (1/0)
+  has <n>            store level: which entry families of block n exist, 8 bits: hdr h2n comm su txs txl l1m hist
   store | revert | writel1 <n> | evl1 <n> | evl2 <n> | flush <k> | finish | fail | crash <seed 0|1> | tick | migrate <unchangedSlot 0|1>
 Observations:
   q <query> <n>      answer of the node about block n: ok | notfound | pruned | stale <m>
@@ -18,6 +23,10 @@ Observations:
   migfloor           the migration's own min-age floor (FindOldestBlockAtOrAfter(0, pivot, cutoff)); - = none
   head               head state
   info               height l1 floorState pending sampled job oldest
+  migstep <k> <h> <marker 0|1> <orig bits 0..h> <op> ...   the small-step model of the migration's resume bookkeeping
+                     (ModelMigStep.lean) run from a never-migrated node; ops: start | s<n> (stage) | cs<r> (cancelStager) |
+                     sd (stagerDone) | r<n> (restore) | cr<r> (cancelRestorer) | rd (restorerDone) | rec | kill;
+                     answer: <done> <live bits 0..h> <scratch bits 0..h> <mark> <tok.1>,<tok.2>
 Pure functions (decimal in, decimal out):
   hdrend <e> | aggend <e> | find <lower> <upper> <cutoff> <ts_lower> ... <ts_upper>
 All numbers are decimal. -/
@@ -94,19 +103,53 @@ def keyBytes (scratch : Bool) (kind addr slot blk : String) : String :=
     bytesToHex (if scratch then Mig.scratchKey key else Mig.historyKey key)
   | _, _, _, _ => "bad-op"
 
+def migOp? (w : String) : Option MigStep.Op :=
+  if w == "start" then some .start
+  else if w == "sd" then some .stagerDone
+  else if w == "rd" then some .restorerDone
+  else if w == "rec" then some .record
+  else if w == "kill" then some .kill
+  else if w.startsWith "cs" then (nat? (String.mk (w.toList.drop 2))).map .cancelStager
+  else if w.startsWith "cr" then (nat? (String.mk (w.toList.drop 2))).map .cancelRestorer
+  else if w.startsWith "s" then (nat? (String.mk (w.toList.drop 1))).map .stage
+  else if w.startsWith "r" then (nat? (String.mk (w.toList.drop 1))).map .restore
+  else none
+
+def bits (f : Nat → Bool) (n : Nat) : String :=
+  String.mk ((List.range n).map fun i => if f i then '1' else '0')
+
+def migStepLine (k h mk orig : String) (ops : List String) : String :=
+  match nat? k, nat? h, bool? mk, ops.mapM migOp? with
+  | some k, some h, some mk, some ops =>
+    if orig.length = h + 1 ∧ orig.all (fun ch => ch == '0' || ch == '1') then
+      let o : Nat → Bool := fun n => (orig.toList[n]?).getD '0' == '1'
+      let c : MigStep.Cfg := { k := k, h := h, marker := mk }
+      let s := MigStep.run c (MigStep.init o) ops
+      s!"{if s.done then 1 else 0} {bits s.live (h + 1)} {bits s.scratch (h + 1)} {if s.mark then 1 else 0} {s.tok.1},{s.tok.2}"
+    else "bad-op"
+  | _, _, _, _ => "bad-op"
+
 def stepLine (d : DSt) (line : String) : DSt × String :=
   match words line with
-  | ["cfg", r, l, m, lg, fx, ms, mz, cl, rg] =>
+  | "migstep" :: k :: h :: mk :: orig :: ops => (d, migStepLine k h mk orig ops)
+  | ["cfg", r, l, m, lg, fx, ms, mz, cl, rg, sc] =>
     match u64? r, u64? l, bool? m, bool? lg, bool? fx, bool? ms, bool? mz, bool? cl, bool? rg with
     | some r, some l, some m, some lg, some fx, some ms, some mz, some cl, some rg =>
-      ({ cfg := { retained := r, l2PerPrune := l, minAge := m, legacy := lg, fixed := fx,
-                  migSkipsMissing := ms, migZeroNoop := mz, l2Clamps := cl, readerGuard := rg }, st := St.init }, "ok")
+      match bool? sc with
+      | some sc =>
+        ({ cfg := { retained := r, l2PerPrune := l, minAge := m, legacy := lg, fixed := fx,
+                    migSkipsMissing := ms, migZeroNoop := mz, l2Clamps := cl, readerGuard := rg, sampleChecked := sc },
+           st := St.init }, "ok")
+      | none => (d, "bad-op")
     | _, _, _, _, _, _, _, _, _ => (d, "bad-op")
   | "ts" :: tss =>
     match tss.mapM nat? with
     | some l =>
       let arr := l.toArray
-      ({ d with cfg := { d.cfg with ts := fun n => arr.getD n 0 } }, "ok")
+      let last := arr.back?.getD 0
+      let f := d.st.chain.fork + 1
+      let old := d.cfg.forkTs
+      doOp { d with cfg := { d.cfg with forkTs := fun g n => if g = f then arr.getD n last else old g n } } .fork
     | none => (d, "bad-op")
   | ["clock", t] =>
     match nat? t with
@@ -122,12 +165,19 @@ def stepLine (d : DSt) (line : String) : DSt × String :=
     | none => (d, "bad-op")
   | ["migfloor"] =>
     match d.st.db.height, d.st.db.l1 with
-    | some h, some l1 => (d, showOptNat ((migMinAgeFloor d.cfg h l1 d.st.cutoff).map (·.toNat)))
+    | some h, some l1 => (d, showOptNat ((migMinAgeFloor (d.st.tsAt d.cfg) h l1 d.st.cutoff).map (·.toNat)))
     | _, _ => (d, "-")
   | ["bulk", k] =>
     -- the node after k stores on the empty database (Props.bulk_is_k_stores), in closed form
     match nat? k with
     | some k => if 0 < k then ({ d with st := { St.init with db := Db.bulk k } }, "ok") else (d, "bad-op")
+    | none => (d, "bad-op")
+  | ["has", n] =>
+    -- store level: which entry families of block n are in the database (hdr h2n comm su txs txl l1m hist)
+    match nat? n with
+    | some n =>
+      let fams : List Bk := [.hdr, .h2n, .comm, .su, .txs, .txl, .l1m, .hist]
+      (d, String.mk (fams.map fun i => if d.st.db.has i n then '1' else '0'))
     | none => (d, "bad-op")
   | ["agg", w] =>
     match nat? w with
